@@ -13,6 +13,7 @@ is not completed; it is decided on the real code by the concatenation suite (dee
 each text parsed alone) and the model is compared on every concatenated text.
 -/
 import SecsModel.Model.Parser
+import SecsModel.Proofs.ParserNat
 import SecsModel.Generated.Facts
 namespace Secs.C19
 open Secs Secs.Sml Secs.Lex
@@ -47,6 +48,66 @@ theorem loop_acc_prefix (fuel : Nat) (s : PS) (acc : List Msg) (ms : List Msg) (
       · rename_i m s1 _
         obtain ⟨rest, hr⟩ := ih s1 (m :: acc) h
         exact ⟨m :: rest, by simp [hr]⟩
+
+/-- the messages parsed so far are only ever a prefix put in front -/
+theorem loop_acc (fuel : Nat) : ∀ (s : PS) (acc : List Msg),
+    parseLoop fuel s acc = (parseLoop fuel s []).map (fun r => (acc.reverse ++ r.1, r.2)) := by
+  induction fuel with
+  | zero => intro s acc; simp [parseLoop]
+  | succ n ih =>
+    intro s acc
+    rw [loop_unfold, loop_unfold]
+    split
+    · simp
+    · cases h : parseMessage s with
+      | mk o s1 =>
+        cases o with
+        | none => simp
+        | some om =>
+          cases om with
+          | none => simp
+          | some m =>
+            simp only
+            rw [ih s1 (m :: acc), ih s1 [m]]
+            cases parseLoop n s1 [] with
+            | none => rfl
+            | some r => simp
+
+/-- what a run of the message loop shows to the caller: messages, errors, warnings -/
+def obs (r : Option (List Msg × PS)) : Option (List Msg × List Diag × List Diag) :=
+  r.map (fun x => (x.1, x.2.errs, x.2.warns))
+
+/-- the names and the ellipsis counter a previous message left behind are invisible -/
+theorem loop_scope (fuel : Nat) (s : PS) (acc : List Msg) (names : List Name) (ell : Nat) :
+    obs (parseLoop fuel { s with names := names, ell := ell } acc) = obs (parseLoop fuel s acc) := by
+  cases fuel with
+  | zero => simp [parseLoop, obs]
+  | succ n =>
+    rw [loop_unfold, loop_unfold, scope_reset]
+    have hp : ({ s with names := names, ell := ell } : PS).peek = s.peek := rfl
+    rw [hp]
+    split
+    · simp [obs]
+    · rfl
+
+/-- **Independence of what follows from what came before.** When the loop has parsed the
+messages `acc` of a first text without error and stands at the tokens `tb` of a second text —
+with whatever warnings `wA`, variable names and ellipsis counter the first text left — it
+returns exactly `acc`, followed by what parsing `tb` alone returns, with the same errors and the
+same warnings added to `wA`. -/
+theorem continuation_independent (fuel : Nat) (tb : List Tok) (acc : List Msg) (wA : List Diag)
+    (names : List Name) (ell : Nat) :
+    obs (parseLoop fuel { toks := tb, errs := [], warns := wA, names := names, ell := ell, skipSize := false } acc) =
+      (obs (parseLoop fuel { toks := tb } [])).map (fun r => (acc.reverse ++ r.1, r.2.1, r.2.2 ++ wA)) := by
+  have h1 := loop_scope fuel { toks := tb, errs := [], warns := wA, names := [], ell := 0, skipSize := false } acc names ell
+  simp only at h1
+  rw [h1, loop_acc]
+  have h2 := parseLoop_frame wA fuel { toks := tb } []
+  simp only [List.nil_append] at h2
+  rw [h2]
+  cases parseLoop fuel { toks := tb } [] with
+  | none => rfl
+  | some r => simp [obs]
 
 /-- tie to the source: the token channel is per call (capacity constant), no package state -/
 theorem facts_no_shared_state : Generated.pkgVars = [] ∧ Generated.tokenChanCap = 2 := by decide
